@@ -83,7 +83,37 @@ extern "C" void csem_stuck()
 extern "C" void csem_final()
 {
     int n = 0;
-    while (n < 8 && sem->try_acquire()) ++n;
+    while (n < 12 && sem->try_acquire()) ++n;
     verif_assert(n == permits, "conservation: remaining permits == initial + released - acquired");
+    verif_cover(0);
+}
+
+// ---- directed: two blocked acquirers, one release(2): both must get through ---------------------------------
+extern "C" void csem3_init()
+{
+    initial = 0;
+    permits = 0;
+    sem = new pika::counting_semaphore<>(0);
+}
+static void acquirer()
+{
+    int t = verif_tid();
+    in_acquire[t] = 1;
+    sem->acquire();
+    in_acquire[t] = 0;
+    --permits;
+    verif_assert(permits >= 0, "acquisitions never exceed initial + released permits");
+}
+extern "C" void csem3_thread_0() { acquirer(); }
+extern "C" void csem3_thread_1() { acquirer(); }
+extern "C" void csem3_thread_2()
+{
+    permits += 2;
+    sem->release(2);
+}
+extern "C" void csem3_stuck() { verif_assert(permits <= 0, "no acquirer stays blocked while permits are available (no lost release)"); }
+extern "C" void csem3_final()
+{
+    verif_assert(permits == 0 && !sem->try_acquire(), "both permits of release(2) were consumed by the two acquirers");
     verif_cover(0);
 }
